@@ -110,6 +110,7 @@ type Thread struct {
 	inQuiesce  bool
 	fnName     string
 	recoverTok bool
+	parked     bool // pre-empted: delayed until every other thread has run to a block (delay bounding)
 }
 
 type pathEnd struct {
@@ -674,14 +675,25 @@ func (ex *Exec) runnable(th *Thread) bool {
 func (ex *Exec) pick() *Thread {
 	main := ex.threads[0]
 	for {
-		var cands []*Thread
+		var cands, parked []*Thread
 		for _, t := range ex.threads {
 			if t == main && main.inQuiesce {
 				continue
 			}
 			if ex.runnable(t) {
-				cands = append(cands, t)
+				if t.parked {
+					parked = append(parked, t)
+				} else {
+					cands = append(cands, t)
+				}
 			}
+		}
+		if len(cands) == 0 && len(parked) > 0 {
+			// everybody else has run to a block: the delayed threads resume
+			for _, t := range parked {
+				t.parked = false
+			}
+			cands = parked
 		}
 		if len(cands) > 0 {
 			idx := 0
@@ -749,6 +761,7 @@ func (ex *Exec) maybePreempt(th *Thread, what string) bool {
 	d := &ex.decisions[len(ex.decisions)-1]
 	d.Pos, d.Hit = pos, ex.posHits[pos]
 	ex.preempt--
+	th.parked = true
 	t := others[alt-1]
 	t.state = tRunnable
 	t.waitFn = nil
